@@ -278,7 +278,7 @@ func genWorld(t *rapid.T) world.World {
 				rv.Deprecation = &struct {
 					Reason string `json:"reason"`
 					Link   string `json:"link"`
-				}{"use something newer than " + v, "https://example.com/d/" + v}
+				}{rapid.SampledFrom([]string{"use something newer than " + v, "use something newer than " + v, "", "x"}).Draw(t, "reason"), rapid.SampledFrom([]string{"https://example.com/d/" + v, "https://example.com/d/" + v, ""}).Draw(t, "link")}
 			}
 			rp.Versions = append(rp.Versions, rv)
 		}
